@@ -106,6 +106,8 @@ register(PropertySpec(
              "a node asks its parent what to keep of its rows in its own name (the parent recognises the asking operand by identity)"),
         Rule("BOUND-AGAIN-ONCE", _lazy("values", "rule_bound_again_once"), 3,
              "an expression object that finds itself bound already answers once for that binding and ends (it does not fall through into the ordinary evaluation)"),
+        Rule("CONDITIONS-FORWARDED", _lazy("subquery", "rule_conditions_forwarded"), 4,
+             "the building functions pass the conditions they are given on to the function that builds the query, in every arm"),
     ],
     explanation="Decides the clause 'the condition vocabulary denotes the ordinary Python operator': the node each "
                 "public comparison/membership entry constructs (arguments mapped to dataclass fields through the MRO "
@@ -455,6 +457,8 @@ register(PropertySpec(
              "(shared with C13) a variable given as the domain of another variable reaches it untouched (it is iterable, but over bindings): concatenate over every parent domain"),
         Rule("COLLECTION-TABLE", _lazy("predform", "rule_collection_table"), 2,
              "(shared with C13) an inner scalar that is a class object is one element"),
+        Rule("CONDITIONS-FORWARDED", _lazy("subquery", "rule_conditions_forwarded"), 4,
+             "the building functions pass the conditions they are given on to the function that builds the query, in every arm"),
     ],
     explanation="Decides: exactly-one-row by counting yields over all CFG paths; and interface agreement among the "
                 "implementations of the evaluation protocol (a concatenate used where the protocol passes "
@@ -699,6 +703,8 @@ register(PropertySpec(
              "(shared with C02) a replayed row is tested for duplicates under its own truth"),
         Rule("DEDUP-TESTS-YIELDED-ROW", _lazy("binding", "rule_dedup_tests_yielded_row"), 4,
              "the row the duplicate test looks at is the row that is handed on when it answers 'new' (path rule from every call of the test to the next yield)"),
+        Rule("RETRIEVE-ALL-BRANCHES", _lazy("cacheidx", "rule_retrieve_bound_branches"), 2,
+             "(shared with C20) a lookup that binds a key follows the entry stored for that value and the entry that leaves the key open: otherwise a row is lost on a cache hit, depending on the order in which the variables were declared"),
     ],
     explanation="Decides that the runtime switch governs reads and writes consistently: the asymmetric state (reads "
                 "unguarded, writes guarded) changes results because an empty lookup marks everything covered. Not "
@@ -827,6 +833,8 @@ register(PropertySpec(
              "(shared with C01) the universal expression is evaluated under the incoming binding (a correlated universal ranges over the values of the bound variable only)"),
         Rule("EVAL-PARENT-RESET", _lazy("binding", "rule_eval_parent_reset"), 1,
              "what an evaluation leaves in an operand's _eval_parent_ is wiped by the per-evaluation reset (evaluators that tell their operands nothing fall back to the graph parent)"),
+        Rule("VARS-COMPLETE", _lazy("subquery", "rule_vars_complete"), 8,
+             "the variables of a node are those of every sub-expression it evaluates, of whatever kind; a node counts itself only if it takes several values under one binding"),
     ],
     explanation="Universal quantification is implemented as a running intersection; that the accumulated set can only "
                 "shrink, is seeded once and is emptied by a value with no satisfying binding is a typestate property of "
@@ -975,6 +983,12 @@ register(PropertySpec(
              "(shared with C01) each comparison operator builds the comparison of the operator it is (>= is not >)"),
         Rule("BOUND-AGAIN-ONCE", _lazy("values", "rule_bound_again_once"), 3,
              "an expression object that finds itself bound already answers once for that binding and ends (it does not fall through into the ordinary evaluation)"),
+        Rule("VARS-COMPLETE", _lazy("subquery", "rule_vars_complete"), 8,
+             "the variables of a node are those of every sub-expression it evaluates, of whatever kind; a node counts itself only if it takes several values under one binding"),
+        Rule("CONDITIONS-FORWARDED", _lazy("subquery", "rule_conditions_forwarded"), 4,
+             "the building functions pass the conditions they are given on to the function that builds the query, in every arm"),
+        Rule("RETRIEVE-ALL-BRANCHES", _lazy("cacheidx", "rule_retrieve_bound_branches"), 2,
+             "(shared with C20) a lookup that binds a key follows the entry stored for that value and the entry that leaves the key open: otherwise a row is lost on a cache hit, depending on the order in which the variables were declared"),
     ],
     explanation="An implicit join is a join only if every operator threads the binding it received to its operands and "
                 "keeps everything its operands bound. Both are provenance facts on the evaluation call sites and the "
@@ -1171,6 +1185,8 @@ register(PropertySpec(
              "entity and set_of are one implementation: a type test on the kind of a descriptor covers every kind (same test or the arms of its chain), so a rule or query written with set_of takes the paths the same one written with entity takes"),
         Rule("PULLED-RECORD", _lazy("lazy", "rule_pulled_record"), 3,
              "the record of what was pulled from a one-shot source is appended to only with the value just pulled, and emptied only by clear()"),
+        Rule("VARS-COMPLETE", _lazy("subquery", "rule_vars_complete"), 8,
+             "the variables of a node are those of every sub-expression it evaluates, of whatever kind; a node counts itself only if it takes several values under one binding"),
     ],
     explanation="All clauses are weak but necessary: arguments evaluated under the current binding, one construction "
                 "per combination, no retrieval instead of construction for inferred variables, existing objects passed "
@@ -1230,6 +1246,10 @@ register(PropertySpec(
              "(shared with C01) one condition object in two operands of an and_: each evaluation of it reads the request for false rows from its own argument, so swapping the operands does not change which rows it yields"),
         Rule("QUANT-NOT-STRIPPED", _lazy("subquery", "rule_quant_not_stripped"), 1,
              "a sub-query in the list of selected variables is a conjunct of the enclosing query whenever it is replaced by its variable (handed on unconditionally)"),
+        Rule("CONDITIONS-FORWARDED", _lazy("subquery", "rule_conditions_forwarded"), 4,
+             "the building functions pass the conditions they are given on to the function that builds the query, in every arm"),
+        Rule("RETRIEVE-ALL-BRANCHES", _lazy("cacheidx", "rule_retrieve_bound_branches"), 2,
+             "(shared with C20) a lookup that binds a key follows the entry stored for that value and the entry that leaves the key open: otherwise a row is lost on a cache hit, depending on the order in which the variables were declared"),
     ],
     explanation="Two of the six listed rewrites are decided: mirrored comparisons and contains/in_, by the OPDEN "
                 "denotation rule (C01). Commutativity/associativity of and/or, declaration/selection order and domain "
